@@ -273,7 +273,7 @@ func (m *mappers) ToCharGroup(r comb.Result) (comb.Result, bool) {
 	for _, r := range items {
 		if chars, ok := r.Bag[bagKeyChars].([]rune); ok {
 			for _, c := range chars {
-				if int(c) < len(charMap) {
+				if c >= 0 && int(c) < len(charMap) {
 					charMap[c] = true
 				} else if !containsRune(c, others) {
 					others = append(others, c)
